@@ -57,6 +57,31 @@ def pick(table, idx):
 _R5 = [0, 1, 2, 3, 4]
 
 
+def make_iterable(kind, n):
+    items = [10, 11, 12][:n]
+    if kind == 'list':
+        return list(items)
+    if kind == 'tuple':
+        return tuple(items)
+    if kind == 'range':
+        return range(10, 10 + n)
+    if kind == 'generator':
+        return (x for x in items)          # one-shot
+    if kind == 'iterator':
+        return iter(items)
+    if kind == 'dictkeys':
+        return {k: 1 for k in items}.keys()
+    if kind == 'dict':
+        return {k: 1 for k in items}
+    if kind == 'str':
+        return 'xyz'[:n]
+    if kind == 'pairs':
+        return [(k, k + 100) for k in items]
+    if kind == 'set1':
+        return set(items[:1])
+    raise KeyError(kind)
+
+
 def make_L(outs, vals, log):
     """recording leaf: L(k) logs, then returns vals[k] or raises the exception class selected by the
     symbolic outcome outs[k] (0 = succeeds)."""
@@ -162,6 +187,19 @@ def _mutate(name):
         ns = dict(src_fn.__globals__)
         exec(code, ns)
         cc.Compiler.visit_OnError = ns['visit_OnError']
+    elif name in ('repeat_separator_ge', 'repeat_index_shared'):
+        import inspect
+        import textwrap
+        src_fn = cc.Compiler.visit_Repeat
+        code = textwrap.dedent(inspect.getsource(src_fn))
+        if name == 'repeat_separator_ge':
+            code = code.replace('"if INDEX > 0: __append(WHITESPACE)"', '"if INDEX >= 0: __append(WHITESPACE)"')
+        else:
+            code = code.replace('identifier("__index", id(node))', 'identifier("__index", "_".join(node.names))')
+        assert code != textwrap.dedent(inspect.getsource(src_fn))
+        ns = dict(src_fn.__globals__)
+        exec(code, ns)
+        cc.Compiler.visit_Repeat = ns['visit_Repeat']
     elif name == 'pipe_catches_zerodiv':
         from chameleon import tales
         tales.TalesExpr.exceptions = tales.TalesExpr.exceptions + (ArithmeticError,)
@@ -257,6 +295,10 @@ def bind(ints, bools):
         if kind == 'obj':
             b[name] = pick(OBJ, ints[slot])
             continue
+        if kind.startswith('iter:'):  # iterable of the given kind with symbolic length 0..3
+            n = pick(_R5[:4], ints[slot])
+            b[name] = make_iterable(kind[5:], n)
+            continue
         if kind == 'maybe3':         # unbound / bound to None / bound to 5
             if ints[slot] == 1:
                 b[name] = None
@@ -346,12 +388,14 @@ def _agree1(eng, ref):
 
 
 def agree(bindings):
-    eng = run_engine(bindings)
-    if _agree1(eng, run_ref(bindings)):
+    """bindings: dict, or a zero-argument factory (fresh one-shot iterators for each side)"""
+    mk = bindings if callable(bindings) else (lambda: bindings)
+    eng = run_engine(mk())
+    if _agree1(eng, run_ref(mk())):
         return True
     if STATE.get('case_and_condition'):
         # documentation and implementation order case/condition differently: either is admissible
-        return _agree1(eng, run_ref(bindings, case_first=True))
+        return _agree1(eng, run_ref(mk(), case_first=True))
     return False
 
 
@@ -362,7 +406,7 @@ def H(i0: int, i1: int, i2: int, i3: int, i4: int, i5: int,
     pre: 0 <= i3 < N[3] and 0 <= i4 < N[4] and 0 <= i5 < N[5]
     post: _
     """
-    ok = agree(bind((i0, i1, i2, i3, i4, i5), (b0, b1, b2, b3, b4, b5)))
+    ok = agree(lambda: bind((i0, i1, i2, i3, i4, i5), (b0, b1, b2, b3, b4, b5)))
     return (not ok) if CFG.get('negate') else ok
 
 
